@@ -3,7 +3,7 @@ import itertools
 import random
 
 from common import Recorder, guarded, main
-from gen import specs, specs1, build_fiber, build_tensor, spec_key, random_spec
+from gen import specs, specs1, build_fiber, build_tensor, spec_key, random_spec, scale_spec
 from spec.oracle import raw, is_fiber, is_box, unbox, tensor_snapshot
 
 from fibertree import Fiber, Tensor, Payload
@@ -238,9 +238,19 @@ def run(tier, seed):
             for long_ in itertools.combinations(t3, 3):
                 rec.case("tuple-prefix", (short, long_))
                 check_tuple_prefix(rec, "tuple-prefix", list(short), list(long_), 2, 3)
+    # at scale: seeded random operands far outside the enumerated scope (10-80 elements, coordinates up to several hundred)
+    for _ in range(40 if tier == "quick" else 600):
+        a, na = scale_spec(rnd, vals=(0, 1), count=rnd.choice([3, 10, 30, 80]))
+        b, nb = scale_spec(rnd, vals=(0, 1), count=rnd.choice([3, 10, 30, 80]))
+        if rnd.random() < 0.5:       # overlapping operands
+            b.update({c: 1 for c in rnd.sample(sorted(a), len(a) // 2)})
+        nn = max(na, nb, max(b) + 1)
+        owned = rnd.random() < 0.5
+        rec.case("scale", (spec_key(a), spec_key(b), owned))
+        check_pair(rec, "scale", 1, nn, a, b, owned)
     return rec.result("all pairs of fibers over %d coordinates with payloads {absent,0,1} (free-standing and tensor-owned), both rank formats, sampled "
                       "depth-2 pairs with empty sub-fibers, k-ary forms (k<=4, both intersection styles, union), tuple coordinates of arity 1-3; "
-                      "identity (is) of delivered payloads, masks, operand + rank-list snapshots" % n)
+                      "identity (is) of delivered payloads, masks, operand + rank-list snapshots; plus seeded random pairs at scale (10-80 elements, coordinates to 700)" % n)
 
 
 def replay(case):
